@@ -819,8 +819,19 @@ class Expr:
 
     @staticmethod
     def of_place(body, pl, depth):
-        e = Expr.of_local(body, pl[0], depth)
-        for p in pl[1:]:
+        e = None
+        rest = pl[1:]
+        if pl[0] == 1 and body.parent and len(pl) > 1:
+            # captured variable of a closure / async block: `(*_1).N` or `_1.N` with a debug name
+            for uv in body.o.get('upvars', []):
+                up = uv['p']
+                if up[0] == 1 and len(up) <= len(pl) and pl[:len(up)] == up and any(str(x).startswith('.') for x in up[1:]):
+                    e = Expr('param', 1000 + up.index([x for x in up[1:] if str(x).startswith('.')][0]), uv['n'])
+                    rest = pl[len(up):]
+                    break
+        if e is None:
+            e = Expr.of_local(body, pl[0], depth)
+        for p in rest:
             inner = e.c if e.k == 'let' else e
             if p.startswith('.') and inner is not e and (
                     (inner.k == 'downcast') or (inner.k == 'bin' and inner.a.endswith('WithOverflow'))):
